@@ -210,6 +210,41 @@ fn check_double(c: &KCase, obs: &mut Obs) -> CheckResult {
     let b = view_f(&c.y, "second series");
     let r = catch(|| Ok(sut::roll2_all::<_, f64, _, f64, ChkOut<(f64, f64, f64)>, f64>(&a, &b, c.w, c.mp).0.len()));
     judge("ts_vregx_all", regular, r, len, obs)?;
+    // the iterator (returned) path of the default drivers, which the real Vec / ndarray backends override:
+    // first series = option view of a Vec, and a VecDeque; the result goes into the instrumented container,
+    // which compares the length the trusted source announces with what it yields (the real containers
+    // allocate the former and expose it as initialised)
+    {
+        use std::collections::VecDeque;
+        use tevec::prelude::Vec1View;
+        let av: Vec<f64> = tvh::conv::materialize(&c.x);
+        let bv: Vec<f64> = tvh::conv::materialize(&c.y);
+        let dq: VecDeque<f64> = av.iter().cloned().collect();
+        for st in STATS2 {
+            for first in 0..2 {
+                reset_log();
+                let r = catch(|| {
+                    let o: Option<ChkOut<f64>> = if first == 0 {
+                        sut::roll2::<_, Option<f64>, _, f64, ChkOut<f64>, f64>(&av.opt(), &bv, st, c.w, c.mp, None)
+                    } else {
+                        sut::roll2::<_, f64, _, f64, ChkOut<f64>, f64>(&dq, &bv, st, c.w, c.mp, None)
+                    };
+                    Ok::<usize, String>(o.map(|o| o.0.len()).unwrap_or(usize::MAX))
+                });
+                let name = format!("ts_v{}({} first series, returned)", st.name(), ["option view", "VecDeque"][first]);
+                let log = take_log();
+                if let Some(v) = log.violations.first() {
+                    return fail(format!("ts_v{}:iterator-path:announced-length", st.name()), format!("{}: {} (second series has {} elements, first {})", name, v, bv.len(), len));
+                }
+                match r {
+                    Ok(Ok(n)) if regular && n != len => return fail(format!("ts_v{}:iterator-path:len", st.name()), format!("{}: output of length {} for input length {}", name, n, len)),
+                    Err(p) if regular => return fail(format!("ts_v{}:iterator-path:panic-on-regular-parameters", st.name()), format!("{}: panicked with {}", name, p)),
+                    _ => {},
+                }
+            }
+        }
+        obs.class_if(bv.len() < len, "iterator_path_with_shorter_second_series");
+    }
     // the two-series slice driver
     use tevec::prelude::Vec1View;
     reset_log();
